@@ -459,6 +459,11 @@ func (s *ServerSession) doCreateStream(tid int, stream *Stream) error {
 }
 
 func (s *ServerSession) doPublish(tid int, stream *Stream) (err error) {
+	// 一个连接只能publish或者play一次。已经是pub或者sub类型的session再次收到publish或者play信令，直接关闭连接
+	// (the connection properties can be modified only once, see modConnProps, and the upper layer holds one session per connection)
+	if s.sessionStat.BaseType() != base.SessionBaseTypePubSubStr {
+		return nazaerrors.Wrap(base.ErrRtmpUnexpectedMsg)
+	}
 	if err = stream.msg.readNull(); err != nil {
 		return err
 	}
@@ -500,6 +505,11 @@ func (s *ServerSession) doPublish(tid int, stream *Stream) (err error) {
 }
 
 func (s *ServerSession) doPlay(tid int, stream *Stream) (err error) {
+	// 一个连接只能publish或者play一次。已经是pub或者sub类型的session再次收到publish或者play信令，直接关闭连接
+	// (the connection properties can be modified only once, see modConnProps, and the upper layer holds one session per connection)
+	if s.sessionStat.BaseType() != base.SessionBaseTypePubSubStr {
+		return nazaerrors.Wrap(base.ErrRtmpUnexpectedMsg)
+	}
 	if err = stream.msg.readNull(); err != nil {
 		return err
 	}
